@@ -205,7 +205,7 @@ PROGS = {
     'sparse_out': ('SparseOut', f_sparse, [(3,)], ['scaled', 'missing'], True),
     'two_in': ('TwoIn', f_two, [(3,), (3,)], ['missing', 'entry'], True),
 }
-NETS = ['net2', 'net3:a', 'net3:b', 'net3:mid', 'net3:mid_to_mid2', 'net3:a_to_mid']
+NETS = ['net2', 'net3:a', 'net3:b', 'net3:mid', 'net3:mid_to_mid2', 'net3:a_to_mid', 'net2b:ab', 'net2b:ba']
 
 
 def base_values(shape, k, cplx, zeros):
@@ -267,6 +267,21 @@ def build(desc):
         return dict(blk=net, fromsig=None, tosig=[m2.sig_out[0]], ins=ins, outs=m2.sig_out, mods=[m1, m2],
                     fn=lambda xs: f_lin(f_cube(xs[0], cplx)[0], cplx), fd_ins=[ins[0][0]], fd_outs=m2.sig_out,
                     prior_response=True)
+    if prog.startswith('net2b'):
+        # cube(a) -> mid ; two_in(mid, b) -> out, with BOTH inputs listed in fromsig, in either order (the input listed
+        # first is consumed by the later module in the order 'ba')
+        ia = make_input(pym, (3,), kind, 0, cplx, zeros, 'a')
+        ib = make_input(pym, (3,), 'plain', 3, cplx, False, 'b')
+        m1 = c['Cube']([ia[0]], pym.Signal('mid'), wrong=wrong, cplx=cplx)
+        m2 = c['TwoIn']([m1.sig_out[0], ib[0]], pym.Signal('out'), wrong=None, cplx=cplx)
+        net = pym.Network(m1, m2)
+        if prog.endswith(':ab'):
+            return dict(blk=net, fromsig=[ia[0], ib[0]], tosig=[m2.sig_out[0]], ins=[ia, ib], outs=m2.sig_out,
+                        mods=[m1, m2], fn=lambda xs: f_two(f_cube(xs[0], cplx)[0], xs[1]), fd_ins=[ia[0], ib[0]],
+                        fd_outs=m2.sig_out, prior_response=True)
+        return dict(blk=net, fromsig=[ib[0], ia[0]], tosig=[m2.sig_out[0]], ins=[ia, ib], outs=m2.sig_out,
+                    mods=[m1, m2], fn=lambda xs: f_two(f_cube(xs[1], cplx)[0], xs[0]), fd_ins=[ib[0], ia[0]],
+                    fd_outs=m2.sig_out, prior_response=True)
     # three-module network: two_in(a,b) -> cube -> lin
     sub = prog.split(':')[1]
     ia = make_input(pym, (3,), kind, 0, cplx, zeros, 'a')
